@@ -260,6 +260,35 @@ def _trivial_cases(part):
                 part.count("trivial_cases")
 
 
+def _closed_port_cases(part):
+    """A port that has been closed is still a port: its write() raises PortNotOpenError (a
+    SerialException), so the request is attempted once, nothing is raised, query returns ''."""
+    lib = _lib()
+    _quiet_logger()
+    for how in ("close", "closePort"):
+        for kind, text in (("query", "QB\r"), ("query", "V\r"), ("command", "EM,1,1\r")):
+            port = FakePort(LegacyBoard())
+            if how == "close":
+                port.close()
+            else:
+                lib.closePort(port)
+            func = lib.query if kind == "query" else lib.command
+            try:
+                ret = func(port, text)
+                problem = None
+            except Exception as exc:        # pylint: disable=broad-except
+                ret, problem = None, f"raised {exc!r}"
+            want = "" if kind == "query" else None
+            if problem is None and (ret != want or port.write_attempts != [text.encode("ascii")]):
+                problem = (f"returned {ret!r} after write attempts {port.write_attempts!r}; expected "
+                           f"{want!r} after one attempt to write {text!r}")
+            if problem:
+                part.violation(f"closed:{how}:{kind}:{text.strip()}",
+                               f"{kind}({text!r}) on a port closed with {how}(): {problem}",
+                               {"kind": "closed"})
+            part.count("trivial_cases")
+
+
 def run(ctx):
     jobs = []
     single_bound = ctx.pick(2, 3)
@@ -316,6 +345,7 @@ def run(ctx):
     # seed: rotate job order only (all jobs are always run)
     part = core.fan_out(ctx, _explore_history, jobs)
     _trivial_cases(part)
+    _closed_port_cases(part)
     # "each preceded by up to 100 empty reads" is an allowance per reply line, not per port: a
     # long session on one port against a board that is a little slow every time
     from .c06 import slow_session          # pylint: disable=import-outside-toplevel
@@ -374,6 +404,10 @@ def replay(case):
     if case.get("kind") == "slow_session":
         from .c06 import slow_session      # pylint: disable=import-outside-toplevel
         return slow_session(case["layer"], case["stall"], case["length"])
+    if case.get("kind") == "closed":
+        part = core.Part()
+        _closed_port_cases(part)
+        return [v["msg"] for v in part.violations]
     if case.get("kind") == "none":
         part = core.Part()
         _trivial_cases(part)
